@@ -287,7 +287,32 @@ fn keep_parentheses(internal_type: &TypeInfo, context: TypeInfoContext) -> bool 
         {
             true
         }
+        // A union / intersection which ends in a function type must stay wrapped when it is a member of another
+        // union / intersection: the members following it would otherwise become part of the function's return type
+        // [e.g. `(A & (x: number) -> B) & C`]
+        TypeInfo::Union { .. } | TypeInfo::Intersection { .. }
+            if (context.contains_union || context.contains_intersect)
+                && ends_with_callback(internal_type) =>
+        {
+            true
+        }
         _ if context.within_generic => true,
+        _ => false,
+    }
+}
+
+/// Whether the type ends with a function type that is not wrapped in parentheses
+fn ends_with_callback(type_info: &TypeInfo) -> bool {
+    match type_info {
+        TypeInfo::Callback { .. } => true,
+        TypeInfo::Union(union) => union
+            .types()
+            .last()
+            .is_some_and(|pair| ends_with_callback(pair.value())),
+        TypeInfo::Intersection(intersection) => intersection
+            .types()
+            .last()
+            .is_some_and(|pair| ends_with_callback(pair.value())),
         _ => false,
     }
 }
